@@ -23,6 +23,9 @@ claim("C02", "flag-sensitive ESP acceptance rules (comparison true-edge must be 
 claim("C09", "effect analysis with pointer provenance over the validator closures' call closure (no write to any object reachable from captured/caller options or globals) + global-store scan",
       "Decides for every interleaving (by absence of shared writes, under the Go memory model) that validator closures and their makers write only memory allocated during the call; callers hand makers fresh options; no package-level state in the verifier packages is written after init. External libraries' internal state is trusted.",
       "DESIGN.md §3 C09")
+claim("C17", "effect/provenance analysis (writes only to clones and literals) + field-write whitelist scan + flag-sensitive ESP gating of policy stores + provenance slices of placed values",
+      "Decides that SevPolicy/TdxPolicy write only objects allocated in the call, that only the documented policy fields are ever written (key lists extended, body policy created only when absent), that Policy/Measurement/AnyMrTd are stored only behind overwrite permission or a successful conflict check whose nil result needs unset-or-equal base values, that a too-low SVN cannot succeed without overwrite, and that placed values come from the endorsement. Field-by-field value equality is not decided.",
+      "DESIGN.md §3 C17")
 PENDING = "static rules designed in DESIGN.md §3 but not implemented yet in this revision; not claimed until the rule set lands"
-for p in ["C03","C04","C05","C06","C07","C08","C12","C16","C17","C18","C19","C20"]:
+for p in ["C03","C04","C05","C06","C07","C08","C12","C16","C18","C19","C20"]:
     na(p, PENDING)
